@@ -202,6 +202,12 @@ def generate_dependent_dispatch(tup, handlers, next_call, slf, name, err, nerr):
     tup = to_dict(tup)
     handlers = [(h, to_dict(types)) for h, types in handlers]
     ndb = NameDatabase(default_name="INJECT")
+    # The names of the parameters (keyword arguments keep their own) and the
+    # fixed names used below are not available for what is injected
+    for k in tup:
+        ndb.register(argname(k))
+    for reserved in ("self", "FALLTHROUGH", "HANDLER", "SUMMATION"):
+        ndb.register(reserved)
     conjs = []
 
     exclusive = False
